@@ -7,7 +7,7 @@ exec 9>/tmp/repo.lock; flock 9
 cd /repo || exit 2
 git diff --quiet || { echo "/repo dirty"; exit 2; }
 rc=0
-run() { patcher=$1; shift; python3 $patcher || { echo "patcher failed"; rc=1; return; }
+run() { patcher=$1; shift; python3 $patcher || { echo "patcher failed"; rc=1; git -C /repo checkout -- . ; return; }
   . /verif/scripts/goenv.sh; go build ./... || { echo "refactor does not build"; rc=1; }
   for p in "$@"; do out=$(/verif/scripts/run_check.sh $p quick 2>&1) || { echo "FALSE ALARM on benign refactor: $p"; echo "$out" | grep -E "violated|undecided"; rc=1; }; done
   git -C /repo checkout -- . ; }
